@@ -381,11 +381,28 @@ fn big_dims(c: &BigCase) -> (usize, usize, usize) {
 }
 
 fn check_big(c: &BigCase, ctx: &Ctx) -> Outcome {
-    let (k, n, rows) = big_dims(c);
-    let mut t = big_symbol_table(k, n, rows, c.salt, c.pgap, 0, c.stride);
+    let (k, mut n, mut rows) = big_dims(c);
+    // one case in sixteen: a long uniform table (70000 rows, three samples: the first holds a base everywhere, the
+    // second nothing beyond the first 100 rows, the third another base): every pair is of one kind row after row
+    let uniform = c.salt % 16 == 5;
+    if uniform {
+        n = 3;
+        rows = 70_000;
+    }
+    let mut t = big_symbol_table(k, n, rows, c.salt, if uniform { 0 } else { c.pgap }, 0, c.stride);
+    if uniform {
+        for (i, r) in t.rows.values_mut().enumerate() {
+            r[0] = b'A';
+            r[1] = if i < 100 { b'A' } else { b'-' };
+            r[2] = b'C';
+        }
+    }
     // a third of the cases: every row is variable and nothing is filtered, so that exactly `rows` rows are
     // compared (code that works through the rows in blocks meets its block size exactly)
     let mut c = c.clone();
+    if uniform {
+        c.freq = Freq::Zero;
+    }
     if c.salt % 3 == 0 {
         c.freq = Freq::Zero;
         for (i, r) in t.rows.values_mut().enumerate() {
@@ -432,6 +449,7 @@ fn check_big(c: &BigCase, ctx: &Ctx) -> Outcome {
             if c.via_cli && c.threads > 1 { cl.push("threads>1"); }
             if n % 8 != 0 { cl.push("samples_not_multiple_of_8"); }
             if threshold >= 2 { cl.push("threshold>=2"); }
+            if uniform { cl.push("70000_rows_every_pair_of_one_kind"); }
             pass(true, key_of(&(k, n, rows, c.salt, c.pgap, &c.freq, c.threads, c.via_cli)), cl)
         }
     }
